@@ -14,6 +14,26 @@ Open Scope N_scope.
 Definition bytes_E (e : endian) (n : nat) (v : N) : list byte :=
   match e with LittleEndian => le_bytes n v | BigEndian => be_bytes n v end.
 
+(** The encoding is built from SEGMENTS in little-endian order: an integer (a bit-field
+    group, a multi-byte array element, an optional scalar or enum, a sized custom
+    field) is a segment whose bytes are reversed in a big-endian file; raw bytes
+    (payloads, padding) are not.  This is the reference's "grouped ..., then
+    byte-swapped to the required endianness". *)
+Definition seg := (list byte * bool)%type.
+
+Definition int_seg (n : nat) (v : N) : seg := (le_bytes n v, true).
+Definition raw_seg (bs : list byte) : seg := (bs, false).
+
+Definition render_seg (e : endian) (s : seg) : list byte :=
+  match e, s with
+  | BigEndian, (bs, true) => rev bs
+  | _, (bs, _) => bs
+  end.
+
+Definition render (e : endian) (ss : list seg) : list byte := List.concat (map (render_seg e) ss).
+
+Definition seg_len (ss : list seg) : N := N.of_nat (List.length (List.concat (map fst ss))).
+
 Definition nbytes (bits : N) : nat := N.to_nat (bits / 8).
 
 Definition len {A} (l : list A) : N := N.of_nat (List.length l).
@@ -75,16 +95,16 @@ Fixpoint flag_value (obj : list (string * value)) (uses : list (string * N)) : o
 Section Fields.
   Variable fl : file.
   (** encoder for a struct-typed value *)
-  Variable rec : string -> value -> option (list byte).
+  Variable rec : string -> value -> option (list seg).
 
   Definition E := f_endian fl.
 
   (** One array element / optional value / typedef value of type [width] or [type_id]. *)
-  Definition ref_enc_elem (width : option N) (tid : option string) (v : value) : option (list byte) :=
+  Definition ref_enc_elem (width : option N) (tid : option string) (v : value) : option (list seg) :=
     match width, tid with
     | Some w, _ =>
         match v with
-        | VNum n => if (n <? 2 ^ w) && (w mod 8 =? 0) then Some (bytes_E E (nbytes w) n) else None
+        | VNum n => if (n <? 2 ^ w) && (w mod 8 =? 0) then Some [int_seg (nbytes w) n] else None
         | _ => None
         end
     | None, Some t =>
@@ -93,7 +113,7 @@ Section Fields.
             match v with
             | VNum n =>
                 match spec_enum_of_N tags w n with
-                | Some _ => if w mod 8 =? 0 then Some (bytes_E E (nbytes w) n) else None
+                | Some _ => if w mod 8 =? 0 then Some [int_seg (nbytes w) n] else None
                 | None => None
                 end
             | _ => None
@@ -101,7 +121,7 @@ Section Fields.
         | Some (DStruct _ _ _ _) => rec t v
         | Some (DCustomField _ (Some w) _) =>
             match v with
-            | VNum n => if (n <? 2 ^ w) && (w mod 8 =? 0) then Some (bytes_E E (nbytes w) n) else None
+            | VNum n => if (n <? 2 ^ w) && (w mod 8 =? 0) then Some [int_seg (nbytes w) n] else None
             | _ => None
             end
         | _ => None
@@ -110,7 +130,7 @@ Section Fields.
     end.
 
   Fixpoint ref_enc_elems (width : option N) (tid : option string) (vs : list value)
-    : option (list (list byte)) :=
+    : option (list (list seg)) :=
     match vs with
     | [] => Some []
     | v :: vs' =>
@@ -126,7 +146,7 @@ Section Fields.
 
   (** Encoded elements of the array [id] of [d] (unpadded). *)
   Definition ref_array_elems (d : decl) (obj : list (string * value)) (id : string)
-    : option (list (list byte)) :=
+    : option (list (list seg)) :=
     match array_field d id, assoc id obj with
     | Some f, Some (VList vs) =>
         match f_desc f with
@@ -144,10 +164,10 @@ Section Fields.
     | _, _ => None
     end.
 
-  Definition all_same_length (ebs : list (list byte)) : bool :=
+  Definition all_same_length (ebs : list (list seg)) : bool :=
     match ebs with
     | [] => true
-    | e :: rest => forallb (fun x => len x =? len e) rest
+    | e :: rest => forallb (fun x => seg_len x =? seg_len e) rest
     end.
 
   Definition payload_modifier (d : decl) : N :=
@@ -164,7 +184,7 @@ Section Fields.
 
   (** Value and width of a bit-field. *)
   Definition ref_bitfield (d : decl) (all_fields : list field) (cs : list constr)
-             (obj : list (string * value)) (payload : list byte) (f : field)
+             (obj : list (string * value)) (payload : list seg) (f : field)
     : option (N * N) :=
     match f_desc f with
     | Scalar id w =>
@@ -188,10 +208,10 @@ Section Fields.
         end
     | Size fid w =>
         if String.eqb fid "_payload_" || String.eqb fid "_body_" then
-          Some (len payload + payload_modifier d, w)
+          Some (seg_len payload + payload_modifier d, w)
         else
           match ref_array_elems d obj fid with
-          | Some ebs => Some (len (List.concat ebs) + array_modifier d fid, w)
+          | Some ebs => Some (seg_len (List.concat ebs) + array_modifier d fid, w)
           | None => None
           end
     | Count fid w =>
@@ -203,7 +223,7 @@ Section Fields.
         match ref_array_elems d obj fid with
         | Some ebs =>
             if all_same_length ebs then
-              Some (match ebs with e :: _ => len e | [] => 0 end, w)
+              Some (match ebs with e :: _ => seg_len e | [] => 0 end, w)
             else None
         | None => None
         end
@@ -233,8 +253,8 @@ Section Fields.
 
   (** The fields of ONE declaration; [payload] stands for its payload/body. *)
   Fixpoint ref_enc_fields (d : decl) (all_fields : list field) (cs : list constr)
-           (obj : list (string * value)) (payload : list byte)
-           (fs : list field) (acc bits : N) {struct fs} : option (list byte) :=
+           (obj : list (string * value)) (payload : list seg)
+           (fs : list field) (acc bits : N) {struct fs} : option (list seg) :=
     match fs with
     | [] => if bits =? 0 then Some [] else None
     | f :: rest =>
@@ -267,7 +287,7 @@ Section Fields.
                     let bits' := bits + w in
                     if bits' mod 8 =? 0 then
                       match ref_enc_fields d all_fields cs obj payload rest 0 0 with
-                      | Some b => Some (bytes_E E (nbytes bits') acc' ++ b)%list
+                      | Some b => Some (int_seg (nbytes bits') acc' :: b)
                       | None => None
                       end
                     else ref_enc_fields d all_fields cs obj payload rest acc' bits'
@@ -290,8 +310,8 @@ Section Fields.
                         if es_ok then
                           match next_is_padding rest with
                           | Some p =>
-                              if len bs <=? p
-                              then Some (bs ++ zeros (N.to_nat (p - len bs)))%list
+                              if seg_len bs <=? p
+                              then Some (bs ++ [raw_seg (zeros (N.to_nat (p - seg_len bs)))])%list
                               else None
                           | None => Some bs
                           end
@@ -324,8 +344,8 @@ Definition obj_payload (obj : list (string * value)) : option (list byte) :=
     value of the LEAF declaration, [cs] its accumulated constraints, [payload] what
     goes where [d]'s payload/body field is. *)
 Fixpoint ref_enc_decl (fuel : nat) (fl : file) (d : decl) (all_fields : list field)
-         (cs : list constr) (obj : list (string * value)) (payload : list byte)
-  : option (list byte) :=
+         (cs : list constr) (obj : list (string * value)) (payload : list seg)
+  : option (list seg) :=
   match fuel with
   | O => None
   | S fuel' =>
@@ -333,7 +353,7 @@ Fixpoint ref_enc_decl (fuel : nat) (fl : file) (d : decl) (all_fields : list fie
         match lookup_decl fl tid, v with
         | Some d', VObj o =>
             match obj_payload o with
-            | Some pl => ref_enc_decl fuel' fl d' (iter_fields fl d') (iter_constraints fl d') o pl
+            | Some pl => ref_enc_decl fuel' fl d' (iter_fields fl d') (iter_constraints fl d') o [raw_seg pl]
             | None => None
             end
         | _, _ => None
@@ -348,7 +368,7 @@ Fixpoint ref_enc_decl (fuel : nat) (fl : file) (d : decl) (all_fields : list fie
       end
   end.
 
-Definition ref_encode (fuel : nat) (fl : file) (id : string) (v : value) : option (list byte) :=
+Definition ref_segments (fuel : nat) (fl : file) (id : string) (v : value) : option (list seg) :=
   match lookup_decl fl id, v with
   | Some d, VObj o =>
       match d with
@@ -358,7 +378,7 @@ Definition ref_encode (fuel : nat) (fl : file) (id : string) (v : value) : optio
               (* a declaration without payload field cannot carry one *)
               match decl_payload d, pl with
               | None, _ :: _ => None
-              | _, _ => ref_enc_decl fuel fl d (iter_fields fl d) (iter_constraints fl d) o pl
+              | _, _ => ref_enc_decl fuel fl d (iter_fields fl d) (iter_constraints fl d) o [raw_seg pl]
               end
           | None => None
           end
@@ -366,3 +386,6 @@ Definition ref_encode (fuel : nat) (fl : file) (id : string) (v : value) : optio
       end
   | _, _ => None
   end.
+
+Definition ref_encode (fuel : nat) (fl : file) (id : string) (v : value) : option (list byte) :=
+  option_map (render (f_endian fl)) (ref_segments fuel fl id v).
